@@ -282,6 +282,36 @@ def r3(F, R):
                     R.ok("C13-R3", key, site, "set_position error is kept and returned (%s)" % good[0].detail)
                 else:
                     R.bad("C13-R3", key, site, "set_position error does not reach the worker's result: %s" % outs)
+    # success is reported only for a chain that could be built and started: every `Ok(())` the worker returns lies behind the construction of
+    # the density (Model::math) and an accepted starting point (the set_position of the retry loop) - also when there is nothing to sample
+    from .c05 import agg_blocks
+    for b in workers:
+        if not b.calls_to(lambda c: path_ends(c["path"], "Chain::set_position")):
+            continue
+        oks = [x[0] for x in agg_blocks(b, "Result", "Ok") if any(st["k"] == "assign" and st["pl"]["l"] == 0 and not st["pl"]["p"] for st in b.blocks[x[0]]["stmts"])]
+        sp_ = [bb for bb, _t in b.calls_to(lambda c: path_ends(c["path"], "Chain::set_position"))]
+        # the starting point is searched in a retry loop: what dominates the code behind it is the loop (its header), not the call inside
+        loops_ = b.natural_loops()
+        sp_anchor = []
+        for x in sp_:
+            hs = [h for h, body in loops_.items() if x in body]
+            sp_anchor.append(min(hs, key=lambda h: len(loops_[h])) if hs else x)
+        need = {"Model::math": [bb for bb, _t in b.calls_to(lambda c: path_ends(c["path"], "Model::math"))],
+                "Chain::set_position": sp_anchor}
+        site = "%s @%s" % (b.path, b.loc())
+        early = []
+        for o in oks:
+            for nm, bbs in need.items():
+                if bbs and not any(b.dominates(x, o) for x in bbs):
+                    early.append((o, nm))
+        key = b.path + ":ok-after-init"
+        if not oks:
+            continue
+        if early:
+            R.bad("C13-R3", key, "%s @%s" % (b.path, loc(b.blocks[early[0][0]]["term"].get("span") or b.span)), "the worker can return Ok(()) without having passed %s: a model "
+                  "whose density cannot be built, or that has no valid starting point, is reported as a successful (empty) run" % sorted({e_[1] for e_ in early}))
+        else:
+            R.ok("C13-R3", key, site, "every Ok(()) of the worker is dominated by Model::math and by the set_position of the retry loop (%d returns)" % len(oks))
     # a successful (re)try must leave the remembered error cleared: no path from the Ok outcome of set_position to the
     # loop exit may keep `error = Some(earlier failure)`
     for b in workers:
@@ -630,6 +660,42 @@ def r10(F, R):
         R.bad("C13-R10", "positive-control", "fixtures/positive", "matcher failed on the planted accumulators: %s" % sorted(ph))
 
 
+def r11(F, R):
+    R.rule("C13-R11", "no float-to-integer conversion that can panic in the sampling path: `x.to_u64().unwrap()` (ToPrimitive / NumCast / TryFrom on a float) returns "
+                      "None for NaN, negative and out-of-range values; it is accepted only where the operand is bounded by construction - floor / ceil of the log2 "
+                      "of a value that went through an integer type. A ratio such as target_time / step_size is unbounded: recoverable density errors drive the "
+                      "adapted step size towards 0, and the chain worker panics instead of recording the divergences")
+    n = 0
+    for b in sorted(F.bodies.values(), key=lambda x: x.path):
+        if K.is_std_derive(b) or not b.blocks or b.path.startswith(("storage::", "<storage::")):
+            continue
+        for bb, t in b.calls():
+            c = t["callee"]
+            p_ = strip_generics(c.get("path", ""))
+            if not (p_.endswith(("Option::unwrap", "Option::expect")) and t["args"]):
+                continue
+            v = b.value(t["args"][0])
+            if not (v[0] == "call" and str(v[1]).split("::")[-1] in ("to_u64", "to_usize", "to_i64", "to_u32", "to_i32", "to_isize", "to_u8", "to_u16") and v[2]):
+                continue
+            src = v[2][0]
+            sty = str((v[3] or {}).get("self_ty") or "")
+            if "f64" not in sty and "f32" not in sty and not any(n_[0] == "call" and "f64" in str(n_[1]) and str(n_[1]).split("::")[-1] in ("floor", "ceil", "round", "log2", "trunc") for n_ in vt_walk_(src)):
+                continue
+            n += 1
+            site = "%s @%s" % (b.path, loc(t["span"]))
+            key = "%s:float-to-int#%d" % (b.path, n)
+            bounded = any(n_[0] == "call" and "f64" in str(n_[1]) and str(n_[1]).split("::")[-1] == "log2" and n_[2] and any(m_[0] == "cast" for m_ in vt_walk_(n_[2][0])) for n_ in vt_walk_(src))
+            if bounded:
+                R.ok("C13-R11", key, site, "operand is floor/ceil(log2(<integer as f64>)): at most 64 and never NaN (that the integer is >= 1 - a positive target time - is a value question, not decided)")
+            else:
+                from .facts import vt_str as _s
+                R.bad("C13-R11", key, site, "`%s(..).unwrap()` of %s: the operand is not bounded (NaN / negative / > u64::MAX give None and the worker panics)" % (
+                    str(v[1]).split("::")[-1], _s(src)[:100]))
+    if n == 0:
+        R.info("C13-R11", "no unwrapped float-to-integer conversion in the sampling path")
+    R.floor("C13-R11", 2)
+
+
 def r9(F, R):
     R.rule("C13-R9", "no division that panics on zero in library code: an integer `/` or `%` whose divisor is not a constant, or `Duration / n`, panics when the "
                      "divisor is 0 - and counts taken from a draw (steps, draws, chains) are 0 for a trajectory that fails on its first step, for an empty run, "
@@ -666,6 +732,7 @@ def run(F, R, config="all"):
     r8(F, R)
     r9(F, R)
     r10(F, R)
+    r11(F, R)
     # a panic in the chain worker is not an Err: the MCLMC retry bookkeeping must cover its step budget or `assert!(steps_taken >= num_base_steps)` fires
     from . import c18
     K.borrow_rule(R, lambda sub: c18.r4(F, sub), "C13-R7", "recoverable density errors inside an MCLMC trajectory are retried with a smaller step without ever tripping the "
